@@ -117,7 +117,7 @@ def h_energy(env, opts, patt, n, canary=False, hkind=None):
     env.check_eq(R.inner(st, st), 1, "<psi|psi> == 1 (with faithfulness: energy >= lowest eigenvalue by Rayleigh-Ritz)")
 
 
-def h_deflation(env, opts, patt, n, ref_state=None, narrow=False):
+def h_deflation(env, opts, patt, n, ref_state=None, narrow=False, two=False):
     from tangelo.linq import Circuit, Gate
     opts = dict(opts)
     opts["molecule"] = mol(opts.pop("molecule_key"))
@@ -130,7 +130,10 @@ def h_deflation(env, opts, patt, n, ref_state=None, narrow=False):
         cd = Circuit([Gate("X", 0), Gate("RY", 1, parameter=np.pi / 4), Gate("CNOT", 2, 1), Gate("H", 3)] if n == 4 else
                      [Gate("RY", 0, parameter=np.pi / 4), Gate("CNOT", 1, 0)], n_qubits=n)
     coeff = env.real("w", lo=0, hi=5)
-    opts["deflation_circuits"] = [cd]
+    cds = [cd]
+    if two:
+        cds.append(Circuit([Gate("H", 0), Gate("CNOT", 1, 0)] + ([Gate("X", 3)] if n == 4 else []), n_qubits=n))
+    opts["deflation_circuits"] = cds
     opts["deflation_coeff"] = coeff
     try:
         s = make_solver(env, opts)
@@ -140,10 +143,12 @@ def h_deflation(env, opts, patt, n, ref_state=None, narrow=False):
             st = full_circuit_state(s, n)
     finally:
         c02._restore()
-    phi = R.run_gates(cd._gates, n)
-    ov = R.inner(st, phi)
     plain = R.expectation(st, n, dict(s.qubit_hamiltonian.terms))
-    env.check_eq(e, plain + coeff * (ov * R.n_conj(ov)), "energy with deflation == plain energy + coeff * |<psi|phi_d>|^2")
+    surplus = R.C(0)
+    for c_ in cds:
+        ov = R.inner(st, R.run_gates(c_._gates, n))
+        surplus = surplus + ov * R.n_conj(ov)
+    env.check_eq(e, plain + coeff * surplus, f"energy with {len(cds)} deflation circuit(s) == plain energy + coeff * sum_k |<psi|phi_k>|^2")
 
 
 def decode_amplitudes(st, n_so, mapping, utd):
@@ -358,6 +363,30 @@ def h_symmetry_hcb(env, key, which):
     env.check_eq(val, want, f"operator_expectation('{which}') under HCB == value on the paired (seniority-zero) state")
 
 
+def h_simulate(env, opts, n, projective=False):
+    """simulate() with a user-supplied 'optimizer' that evaluates the energy at ONE (symbolic) parameter vector and returns it:
+    the reported optimal energy is <H> of the state that solver.optimal_circuit prepares, and equals energy_estimation there"""
+    from tangelo.linq import Circuit, Gate
+    opts = dict(opts)
+    opts["molecule"] = mol(opts.pop("molecule_key"))
+    if projective:
+        opts["projective_circuit"] = Circuit([Gate("CNOT", 1, 0), Gate("RZ", 1, parameter=np.pi / 4), Gate("H", 0)])
+    try:
+        s = make_solver(env, opts)
+        k = s.ansatz.n_var_params
+        th = vec(env, "th", ("ss" + "p" * k)[:k])
+        s.optimizer = lambda func, x0: (func(list(th)), list(th))
+        with sym_alloc(env):
+            e_opt = s.simulate()
+            st = R.run_gates(s.optimal_circuit._gates, n)
+            e_again = s.energy_estimation(list(th))
+    finally:
+        c02._restore()
+    env.check_eq(e_opt, R.expectation(st, n, dict(s.qubit_hamiltonian.terms)), "simulate(): optimal_energy == <H> of the state prepared by optimal_circuit")
+    env.check_eq(e_opt, e_again, "simulate(): optimal_energy == energy_estimation(optimal_var_params)")
+    env.check_vec_eq(list(s.optimal_var_params), list(th), "simulate(): optimal_var_params are the optimiser's")
+
+
 def h_refstate(env, patt):
     """solver given a reference-state override: the symmetry expectation must refer to the same state as the energy"""
     from tangelo.algorithms.variational import BuiltInAnsatze
@@ -452,6 +481,15 @@ def shapes(tier, seed):
                                                                        patt="ss", n=4, ref_state=[1, 0, 0, 1]), modules=MODS, max_paths=64))
     out.append(Shape("deflation/uccsd/H2/scbk", h_deflation, dict(opts=dict(molecule_key="H2", qubit_mapping="scbk", ansatz=BuiltInAnsatze.UCCSD), patt="ss", n=2),
                      modules=MODS, max_paths=64))
+    out.append(Shape("deflation/uccsd/H2/jw/two", h_deflation, dict(opts=dict(molecule_key="H2", qubit_mapping="jw", ansatz=BuiltInAnsatze.UCCSD), patt="ss", n=4, two=True),
+                     modules=MODS, max_paths=64))
+    out.append(Shape("deflation/uccsd/H2/scbk/two+narrow", h_deflation, dict(opts=dict(molecule_key="H2", qubit_mapping="scbk", ansatz=BuiltInAnsatze.UCCSD), patt="ss", n=2,
+                                                                            two=True, narrow=True), modules=MODS, max_paths=64))
+    for nm, o, nq, pj in (("plain", dict(molecule_key="H2", qubit_mapping="jw", ansatz=BuiltInAnsatze.UCCSD), 4, False),
+                          ("refstate", dict(molecule_key="H2", qubit_mapping="jw", ansatz=BuiltInAnsatze.UCCSD, ref_state=[0, 1, 1, 0]), 4, False),
+                          ("refstate-upccgsd-bk", dict(molecule_key="H2", qubit_mapping="bk", up_then_down=True, ansatz=BuiltInAnsatze.UpCCGSD, ref_state=[0, 1, 0, 1]), 4, False),
+                          ("refstate-proj", dict(molecule_key="H2", qubit_mapping="jw", ansatz=BuiltInAnsatze.UCCSD, ref_state=[1, 0, 0, 1]), 4, True)):
+        out.append(Shape(f"simulate/{nm}", h_simulate, dict(opts=o, n=nq, projective=pj), modules=MODS, max_paths=64))
     out.append(Shape("deflation/uccsd/H2/jw/narrow", h_deflation, dict(opts=dict(molecule_key="H2", qubit_mapping="jw", ansatz=BuiltInAnsatze.UCCSD), patt="ss", n=4, narrow=True),
                      modules=MODS, max_paths=64))
     out.append(Shape("deflation/uccsd/H2/scbk/narrow", h_deflation, dict(opts=dict(molecule_key="H2", qubit_mapping="scbk", ansatz=BuiltInAnsatze.UCCSD), patt="ss", n=2, narrow=True),
